@@ -384,6 +384,7 @@ func runC23(ctx *ev.Ctx, c c23Case) {
 		return states["pre"].root
 	}
 	e := newEnv(fam.ad, 2000+fam.ad.router, 97, 1, c.Btw, ccmc[:], 64)
+	defer e.w.Store.Close() // releases the store's background goroutines and buffers
 	if err := registerChain(e.w, destChainID, utils.ETH_ROUTER, 1, crypto.Keccak256([]byte("dest-ccmc"))[:20], nil, "dest"); err != nil {
 		panic("harness: " + err.Error())
 	}
